@@ -15,7 +15,8 @@ R06.2  z / o: consumes exactly 0 / 1 elements on every non-aborting input; n: sa
        element and a non-zero top
 R06.3  u: satisfied => exactly 1;  d: some signature-free input leaves 0
 R06.4  s: every success checked a signature;  f (no dissatisfaction): no signature-free input leaves 0
-R06.5  composition: canonical satisfactions / dissatisfactions of accepted fragments leave non-zero / zero"""
+R06.5  composition: canonical satisfactions / dissatisfactions of accepted fragments leave non-zero / zero
+R06.6  the public cast constructors Type::cast_* give the labels type_check gives (shared with C08 R08.3)"""
 
 import itertools
 import os
@@ -195,6 +196,12 @@ def run(chk):
     for rule in ("R06.1", "R06.2", "R06.3", "R06.4", "R06.5"):
         if not any(k[0] == rule for k in bad):
             chk.ok(rule)
+    # R06.6: labels can also be produced through the public cast constructors (Type::cast_*), which the compiler uses
+    # instead of type_check; they must be the labels type_check gives the same fragment (rule shared with C08)
+    from . import c08
+    from ..report import RuleAlias
+    chk.guard("R06.6", "casts", c08.check_casts, RuleAlias(chk, {"R08.3": "R06.6"}, "the wrapper labels produced by "
+              "Type::cast_* are the ones type_check assigns (and R06.1-R06.5 judge)"), F)
     chk.extra["R06_typed_fragments"] = typed
     chk.extra["R06_executions"] = runs
     chk.floor("R06.1", "well-typed fragments", typed, 800)
